@@ -39,6 +39,25 @@ fn c15_sx126x_ldro() {
     kani::cover!(true, "verif-reached: end");
 }
 
+// the shared helper all four drivers call (lora-phy/src/mod_params.rs); its contract is what the Verus group `lr11xx`
+// ASSUMES for the LR11xx driver, discharged here on the real code for all 80 pairs
+// @verif props=C15 obligation=mod_params::low_data_rate_optimize.contract label=proved-complete tier=quick bound="all 8 SF x 10 BW (exhaustive)"
+#[kani::proof]
+#[kani::unwind(12)]
+fn c15_shared_helper_ldro() {
+    tape::init();
+    let mut s = 0;
+    while s < 8 {
+        let mut b = 0;
+        while b < 10 {
+            assert!(crate::mod_params::low_data_rate_optimize(SFS[s], BWS[b]) == spec_ldro(SFS[s], BWS[b]) as u8, "C15 shared LDRO decision: 1 exactly when the symbol time is >= 16.38 ms, else 0");
+            b += 1;
+        }
+        s += 1;
+    }
+    kani::cover!(true, "verif-reached: end");
+}
+
 // the LDRO field on the wire is the one decided above: SetModulationParams [0x8B, SF, BW, CR, LDRO]
 // @verif props=C15 obligation=Sx126x::set_modulation_params.wire_ldro label=proved-complete tier=quick
 #[kani::proof]
